@@ -16,12 +16,27 @@ STATE_FNS = ["ipp::parser::ParserState::parse_value", "ipp::parser::ParserState:
 MARKERS = ["ipp::value::IppValue", "ipp::attribute::IppAttribute", "ipp::attribute::IppAttributeGroup", "ipp::attribute::IppAttributes"]
 
 
-def exception_edges(run, fn):
-    """(condition term, edge) -> reason, from tables/exceptions.json entries  R-LINEAR|<fn>|<cond>|<edge>."""
+def exception_edges(run, fn, F=None):
+    """(condition term, edge) -> reason, from tables/exceptions.json entries  R-LINEAR|<fn>|<cond>|<edge>.
+    A function that is not on the reviewed list is code moved out of its reviewed callers: their exceptions apply to it."""
+    fns = {fn}
+    if F is not None:
+        from ..symx import known_functions
+        from .. import guardrules as gr
+        if fn not in known_functions():
+            g = gr.call_graph(F)
+            frontier, seen = {fn}, {fn}
+            for _ in range(3):
+                callers = {c for c, callees in g.items() if callees & frontier} - seen
+                fns |= {c for c in callers if c in known_functions()}
+                frontier = {c for c in callers if c not in known_functions()}
+                seen |= callers
+                if not frontier:
+                    break
     out = {}
     for key, e in run.exceptions.items():
         parts = key.split("|")
-        if len(parts) == 5 and parts[0] == "R-LINEAR" and parts[1] == fn:
+        if len(parts) == 5 and parts[0] == "R-LINEAR" and parts[1] in fns:
             out[(parts[2], parts[3], parts[4])] = (key, e.get("reason", ""))
     return out
 
@@ -57,13 +72,19 @@ def r_linear(run, F, rule="R-LINEAR"):
     n = 0
     markers = marker_closure(F)
     # the fixed anchors plus every other non-test fn of the parser module the compiler gave elaborated MIR for (new helpers)
+    from .. import linear as _lin
+    _lin.DISCR.clear()
+    for _adt, _d in F.adts.items():
+        for _v in _d.get("variants", []):
+            if _v.get("discr") is not None:
+                _lin.DISCR["%s::%s" % (_adt, _v["name"])] = _v["discr"]
     fns = list(STATE_FNS) + sorted(f for f in F.mir_elab if f.startswith("ipp::parser::") and "::tests::" not in f and f not in STATE_FNS)
     for fn in fns:
         body = F.mir_elab.get(fn)
         if body is None:
             run.anchor_lost(rule, fn + " (elaborated MIR)")
             continue
-        ex = exception_edges(run, fn)
+        ex = exception_edges(run, fn, F)
         results, stats, m = analyse(body, markers, ex)
         for r in results:
             n += 1
